@@ -11,6 +11,8 @@
       main     DoitMain.run -> DoitCmdBase.execute  (INI file or API config, DOIT_CONFIG -> update_defaults, exit code)
                also API dict + pyproject.toml + doit.cfg at once (layers merged per key), the same extra_config object
                given to an earlier DoitMain that saw other files; the caller's dict must stay unchanged
+               also: the probe command and a DB backend registered as PLUGINS in the same config source ([COMMAND] /
+               [BACKEND], tool.doit.plugins.*), `backend` resolved through the layers and read off the class instantiated
       premain  DoitMain.run with a loader that has options of its own (with env_var), some written in front of the
                command name (`doit -f x -k vcmd ...` -> opt_vals -> params.update); observed where loader.setup
                receives the parameters and after DOIT_CONFIG
@@ -18,6 +20,9 @@
       runtask  `doit t <args>` through DoitMain + ModuleTaskLoader + TaskControl._process_filter: task params x
                per-task config section (API dict / INI / pyproject.toml) x argv after the task name x pos_arg;
                values observed by the task's action, positionals as pos_arg value or as the further tasks run
+      realrun  the real `doit run` on five probe tasks: continue / single / always / verbosity / num_process / par_type
+               from DOIT_CONFIG, [GLOBAL] / [run] (API dict, doit.cfg, pyproject.toml) and the command line, read off
+               what the run does (which tasks ran, in which thread / process, what was printed)
       creator  @task_params creator via loader.load_tasks (section task:<name>)
       realcmd  the CmdParse each real doit command builds from its own option table
 (P) the statement, evaluated by the Lean driver from the *structured* input (list of assignments, the four sources;
@@ -95,7 +100,33 @@ META = {
 
 
 
+
+
+def _sig_var_word_steals_option_value(w):
+    """F-C16c: through DoitMain, an option is followed by its DETACHED value and that value is a `name=value` word"""
+    case = w.get('case') or {}
+    if case.get('path') not in VIA_DOITMAIN:
+        return False
+    return any(a[0] in ('sDet', 'lDet') and is_var_word(a[-1]) for a in (case.get('asgs') or []))
+
+
+def _sig_backend_choice_from_config(w):
+    """F-C16e: a config section / DOIT_CONFIG names a `backend` that does not exist and doit died with the TypeError"""
+    case = w.get('case') or {}
+    res = (w.get('impl') or {}).get('res') or {}
+    known = set(optlib.BACKEND_CLASS) if case.get('plugins') else set(optlib.BACKEND_CLASS) - {'vmem'}
+    named = [c_.get('raw', c_.get('val')) for fld in ('ini', 'glob') for k, c_ in case.get(fld) or [] if k == 'backend'] + \
+            [v for k, v in case.get('dodo') or [] if k == 'backend']
+    return (case.get('path') == 'main' and any(v not in known for v in named)
+            and res.get('err') == 'crash' and "'NoneType' object is not callable" in str(res.get('exc')))
+
+
+SIGNATURES = {'var-word-steals-option-value': _sig_var_word_steals_option_value,
+              'backend-choice-from-config-unchecked': _sig_backend_choice_from_config,
+              }
+
 PATHS = ['parse', 'parse', 'command', 'main', 'premain', 'task', 'runtask', 'creator']
+# + 'realrun' (the real `doit run`, wave 4 #23): generated by realrun_cases(), not by gen_case
 
 
 # ------------------------------------------------------------------------------------------------ cases
@@ -193,6 +224,48 @@ def gen_case(rng, base, path=None):
                 for fs in (case.get('files') or {}).values():
                     if fs is not None:
                         fs['ini'] = [e for e in fs['ini'] if e[0] != bad]
+    if path == 'main' and rng.random() < 0.25 and not case['malformed']:
+        # wave 4 #12: plugin sections ([COMMAND] / [BACKEND], tool.doit.plugins.*) in the same config source; the
+        # `backend` option (a base option of every DoitCmdBase command) set through the layers, one value is the plugin
+        case['plugins'] = True
+        case['spec'] = [dict(o) for o in case['spec']]
+        for o in case['spec'][:case['n_base']]:
+            if o['name'] == 'backend':
+                o['choices'] = list(o['choices']) + ['vmem']
+        pick = lambda: rng.choice(['vmem', 'vmem', 'json', 'sqlite3', 'dbm'])      # noqa: E731
+        if rng.random() < 0.4:
+            case['glob'] = case['glob'] + [['backend', {'raw': pick()}]]
+        if rng.random() < 0.4:
+            case['ini'] = case['ini'] + [['backend', {'raw': pick()}]]
+        if rng.random() < 0.4:
+            case['dodo'] = case['dodo'] + [['backend', pick()]]
+        if rng.random() < 0.4 and case['asgs'] is not None:
+            case['asgs'] = case['asgs'] + [[rng.choice(['lEq', 'lDet']), 'backend', pick()]]
+            case['argv'] = optlib.render(case['asgs'], case['sep'], case['pos'])
+        if rng.random() < 0.1:
+            # a backend name that does not exist: config section, DOIT_CONFIG or command line
+            where = rng.choice(['glob', 'ini', 'dodo', 'argv'])
+            case['malformed'] = 'bad-choice-backend-' + where
+            if where == 'argv':
+                case['argv'] = ['--backend', 'nosuch'] + list(case['argv'])
+            elif where == 'dodo':
+                case['dodo'] = [e for e in case['dodo'] if e[0] != 'backend'] + [['backend', 'nosuch']]
+                case['asgs'] = [a for a in (case['asgs'] or []) if a[1] != 'backend'] if case['asgs'] is not None else None
+                if case['asgs'] is not None:
+                    case['argv'] = optlib.render(case['asgs'], case['sep'], case['pos'])
+            else:
+                # nothing of higher precedence names a backend (else the unknown name is silently overridden)
+                case['dodo'] = [e for e in case['dodo'] if e[0] != 'backend']
+                if case['asgs'] is not None:
+                    case['asgs'] = [a for a in case['asgs'] if a[1] != 'backend']
+                    case['argv'] = optlib.render(case['asgs'], case['sep'], case['pos'])
+                case[where] = [e for e in case[where] if e[0] != 'backend'] + [['backend', {'raw': 'nosuch'}]]
+                if where == 'glob':
+                    case['ini'] = [e for e in case['ini'] if e[0] != 'backend']
+                for fs in (case.get('files') or {}).values():
+                    if fs is not None:
+                        fs['ini'] = [e for e in fs['ini'] if e[0] != 'backend']
+                        fs['glob'] = [e for e in fs['glob'] if e[0] != 'backend']
     if path in ('parse', 'command', 'main') and (rng.random() < 0.35 or case.get('want_prev')):
         # history: another command line handled first by the same parser / command object / process
         prev = optlib.render(optlib.gen_asgs(rng, gen_opts, n=rng.randint(1, 4), good_p=0.95), False, [])
@@ -210,6 +283,8 @@ def gen_case(rng, base, path=None):
                or any(o['inverse'] and o['type'] != 'bool' for o in spec))
         # without pos_arg whatever t's parser leaves must be task names: only with a well-formed table
         case['pos_arg'] = ill or bool(case.get('abbrev')) or rng.random() < 0.4      # abbreviations may leave leftovers too
+        if any(a[0] in ('sDet', 'lDet') and is_var_word(a[-1]) for a in (case['asgs'] or [])):
+            case['pos_arg'] = True      # a detached `name=value` value is stripped (F-C16c): what follows shifts, leftovers again
         r = rng.random()
         case['ini'] = [e for e in case['ini'] if e[0] != 'unknown_key']
         if r < 0.25 and optlib.toml_file_ok(case):
@@ -223,12 +298,18 @@ def gen_case(rng, base, path=None):
             case['argv'] = optlib.render(case['asgs'], case['sep'], case['pos'])
         elif not case['pos_arg']:
             return gen_case(rng, base, path)      # malformed / garbage streams: only with pos_arg (any leftover is a value)
-    if path in ('main', 'premain', 'creator', 'runtask'):
-        # '' as an argument crashes DoitMain.process_args / loader.load_tasks (arg[0]) before any option parsing;
-        # `x=1` positionals are command-line variables for DoitMain: both are outside this property
-        if any(a == '' for a in case['argv']) or (path in ('main', 'premain', 'runtask') and any('=' in a and not a.startswith('-')
-                                                                         for a in case['argv'])):
-            return gen_case(rng, base, path)
+        if rng.random() < 0.25 and not case['malformed']:
+            # API: doit.api.run_tasks(loader, {'t': {...}}) -- no command line; values typed or text, pos_arg value as given
+            case['api'] = True
+            case['task_opts'] = optlib.gen_sources(rng, gen_opts, good_p=0.93, p_ini=0.6, extra_keys=False)[1]
+            case['asgs'], case['abbrev'], case['sep'] = [], False, True
+            case['api_pos_given'] = case['pos_arg'] and rng.random() < 0.8
+            case['pos'] = ([rng.choice(optlib.POSITIONALS + ['k=v', '-x']) for _ in range(rng.randint(0, 3))]
+                           if case['api_pos_given'] else [])
+            case['argv'] = ['--'] + case['pos']       # the model's view: nothing to parse, positionals as they are
+    # main / premain / runtask: '' and `name=value` words are generated; DoitMain.process_args is part of the model
+    # (stripVars): `x=1` positionals are command-line variables (documented), a detached option value `--o a=b` is
+    # taken for one too (F-C16c, open); '' is an ordinary word (F-C16d, fixed)
     if path == 'creator' and (case['pos'] or case['sep'] or any(a == 't' for a in case['argv'])):
         case['pos'] = []
         case['sep'] = False
@@ -237,6 +318,13 @@ def gen_case(rng, base, path=None):
         else:
             return gen_case(rng, base, path)
     return case
+
+
+VIA_DOITMAIN = ('main', 'premain', 'runtask', 'realrun')
+
+
+def is_var_word(a):
+    return bool(a) and a[0] != '-' and '=' in a
 
 
 def add_layers(req, case):
@@ -252,6 +340,10 @@ def model_request(case):
     req = {'model': 'opt', 'spec': case['spec'], 'env': case['env'], 'ini': case['ini'], 'glob': case['glob'],
            'dodo': case['dodo'], 'argv': case['argv']}
     add_layers(req, case)
+    if case['path'] in VIA_DOITMAIN and not case.get('api'):
+        req['strip'] = True
+    if case.get('api'):
+        req['ini'] = case['task_opts']      # task_opts[t] replaces the per-task section as t.cfg_values
     req['op'] = 'parse' if case['path'] in ('parse', 'realcmd') else 'pipeline'
     if case['path'] == 'premain':
         req.update(op='prepipeline', lspec=case['lspec'], pre=case['pre'])
@@ -270,9 +362,14 @@ def aux_requests(case):
 
 
 def spec_request(case):
+    if case.get('api'):
+        return {'model': 'opt', 'op': 'spec', 'spec': case['spec'], 'env': case['env'], 'ini': case['task_opts'],
+                'glob': [], 'dodo': [], 'asgs': [], 'sep': True, 'pos': case['pos']}
     return add_layers({'model': 'opt', 'op': 'spec', 'spec': case['spec'], 'env': case['env'], 'ini': case['ini'],
             'glob': case['glob'], 'dodo': case['dodo'], 'asgs': case['asgs'] or [], 'sep': case['sep'],
-            'pos': case['pos']}, case)
+            # `name=value` positionals are command-line variables for DoitMain (doit.get_var), not positionals
+            'pos': ([p_ for p_ in case['pos'] if not is_var_word(p_)] if case['path'] in VIA_DOITMAIN else case['pos'])},
+                      case)
 
 
 def run_impl(case, workdir):
@@ -289,6 +386,8 @@ def run_impl(case, workdir):
         return optlib.impl_runtask(case, workdir)
     if p == 'realcmd':
         return impl_realcmd(case)
+    if p == 'realrun':
+        return optlib.impl_realrun(case, workdir)
     return optlib.impl_creator(case)
 
 
@@ -354,6 +453,8 @@ def same_result(impl, model, case):
 
 def judge(case, impl, model, spec):
     """-> (violations [(label, note)], divergences [note])"""
+    if case['path'] == 'realrun':
+        return judge_realrun(case, impl, model, spec)
     viol, div = [], []
     path = case['path']
     r1 = impl.get('res')
@@ -361,13 +462,18 @@ def judge(case, impl, model, spec):
         return viol, div            # the tokens in front of the command name do not parse as loader options: not generated
     loader_names = set(o['name'] for o in case.get('lspec') or [])
     # ---- (K)
-    if not same_result(r1, model['res'], case):
+    late_choices = str(case.get('malformed') or '').startswith('bad-choice-backend') and 'err' in (r1 or {}) and \
+        ('err' in model['res'] or "'NoneType' object is not callable" in str(r1.get('exc')))
+    # (an unknown backend name in a config source: doit attaches the choices of `backend` after overwrite_defaults and
+    #  never validates DOIT_CONFIG -- F-C16e; the model has the choices from the start and does not model the later
+    #  TypeError: only "is an error" is compared; counted as plugins:bad-choice-backend-*)
+    if not late_choices and not same_result(r1, model['res'], case):
         div.append('M4/%s: result differs: impl %s model %s' % (path, canon(res_key(r1))[:300],
                                                                canon(res_key(model['res']))[:300]))
     if path == 'premain' and 'ok' in (r1 or {}) and not same_result(impl.get('setup'), model.get('setup'), case):
         div.append('M4/premain: parameters handed to loader.setup differ: impl %s model %s'
                    % (canon(res_key(impl.get('setup')))[:300], canon(res_key(model.get('setup')))[:300]))
-    if path in ('main', 'premain', 'runtask') and 'exit' in impl and impl['exit'] != model.get('exit'):
+    if path in ('main', 'premain', 'runtask') and 'exit' in impl and impl['exit'] != model.get('exit') and not late_choices:
         div.append('M4/main: DoitMain.run ended with %s, the model with exit %s' % (impl['exit'], model.get('exit')))
     if path in ('parse', 'realcmd') and not impl.get('ctor'):
         if not same_result(impl.get('res2'), model['res2'], case):
@@ -383,6 +489,8 @@ def judge(case, impl, model, spec):
     if path in ('parse', 'realcmd') and 'defaults0' in impl and not (impl['defaults0'] == impl['defaults'] == impl['defaults2']):
         viol.append(('pure', 'parse changed option defaults: %s -> %s -> %s'
                      % (impl['defaults0'], impl['defaults'], impl['defaults2'])))
+    if impl.get('task_opts_mutated'):
+        viol.append(('pure', 'doit.api.run_tasks modified the task_opts dict of its caller: %s' % canon(impl['task_opts_mutated'])[:300]))
     if impl.get('extra_config_mutated'):
         m = impl['extra_config_mutated']
         viol.append(('pure', 'DoitMain modified the extra_config dict of its caller: %s -> %s'
@@ -418,7 +526,8 @@ def judge(case, impl, model, spec):
                          % (case['malformed'], canon(r1)[:300])))
     # ---- (P) exact values / positional / precedence against the specification
     if spec is not None and not case.get('malformed') and not case.get('abbrev') and wf and spec['hyp_ok']:
-        if spec['argv'] != case['argv']:
+        if spec['argv'] != [a for a in case['argv'] if not (path in VIA_DOITMAIN and not case.get('api') and is_var_word(a)
+                                                            and a in case['pos'])]:
             raise RuntimeError('harness render differs from the model render: %s vs %s' % (spec['argv'], case['argv']))
         exp = spec['expect']
         if 'err' in exp:
@@ -441,6 +550,18 @@ def judge(case, impl, model, spec):
                     break
             if path != 'creator' and r1['ok']['pos'] != exp['pos']:
                 viol.append(('roundtrip', 'positional arguments changed: got %s expected %s' % (r1['ok']['pos'], exp['pos'])))
+    # ---- plugins: the DB backend the command instantiated is the one the resolved `backend` option names
+    if case.get('plugins') and 'ok' in (r1 or {}) and impl.get('backend_seen'):
+        if 'ok' in model['res']:
+            want = optlib.BACKEND_CLASS.get(dict(model['res']['ok']['vals']).get('backend'))
+            if want != impl['backend_seen']:
+                div.append('M4/main: backend %s instantiated, the model resolves to %s' % (impl['backend_seen'], want))
+        if spec is not None and not case.get('malformed') and not case.get('abbrev') and wf and spec['hyp_ok'] \
+                and 'vals' in spec['expect']:
+            want = optlib.BACKEND_CLASS.get(dict(spec['expect']['vals']).get('backend'))
+            if want != impl['backend_seen']:
+                viol.append(('precedence', 'DB backend %s was instantiated, the property resolves `backend` to %r (%s)'
+                             % (impl['backend_seen'], dict(spec['expect']['vals']).get('backend'), want)))
     # ---- (P) loader options: written in front of the command name, or resolved by precedence, as loader.setup sees them
     aux = model.get('_aux') or {}
     if (path == 'premain' and aux and spec is not None and not case.get('malformed') and wf and spec['hyp_ok']
@@ -525,7 +646,7 @@ def shrink(case, label, cap=120):
                 del c['asgs'][i]
                 c['argv'] = optlib.render(c['asgs'], c['sep'], c['pos'])
                 cands.append(c)
-            for i in range(len(cur['pos'])):
+            for i in range(len(cur['pos']) if cur['path'] != 'realrun' else 0):     # realrun: the probe tasks stay selected
                 c = json.loads(json.dumps(cur))
                 del c['pos'][i]
                 c['argv'] = optlib.render(c['asgs'], c['sep'], c['pos'])
@@ -671,6 +792,29 @@ def account(st, case, impl, model, spec):
                [set(e[0] for e in fs[k]['ini'] + fs[k]['glob']) for k in ('toml', 'cfg') if fs.get(k) is not None]
         if len(keys) > 1:
             st.count('mixed-config:key-in-several-layers=%s' % any(a & b for i, a in enumerate(keys) for b in keys[i + 1:]))
+    if case['path'] in VIA_DOITMAIN and not case.get('api'):
+        st.count('process_args:var-word-positional=%s,detached-value-var-word=%s,empty-word=%s'
+                 % (any(is_var_word(p_) for p_ in case['pos']),
+                    any(a[0] in ('sDet', 'lDet') and is_var_word(a[-1]) for a in (case['asgs'] or [])),
+                    '' in case['argv']))
+    if case['path'] == 'realrun':
+        b = ((impl.get('res') or {}).get('ok') or {}).get('behaviour')
+        if b:
+            st.count('realrun:mode=%s' % b['mode'])
+            st.count('realrun:single=%s,always=%s,continue=%s,verbosity=%s' % (b['single'], b['always'], b['continue'], b['verbosity']))
+        else:
+            st.count('realrun:rejected')
+        for o in ('continue', 'verbosity', 'num_process'):
+            srcs = ''.join(t for t, lst in (('G', case['glob']), ('S', case['ini']), ('D', case['dodo'])) if any(e[0] == o for e in lst))
+            onc = any(o_name in json.dumps(case['asgs']) for o_name in {'continue': ['"c"', 'continue'], 'verbosity': ['"v"', 'verbosity'], 'num_process': ['"n"', 'process']}[o])
+            st.count('realrun:%s-sources=%s%s' % (o, srcs or '-', '+argv' if onc else ''))
+    if str(case.get('malformed') or '').startswith('bad-choice-backend'):
+        st.count('plugins:%s (K compares only error/no error)' % case['malformed'])
+    if case.get('plugins'):
+        st.count('plugins:config-%s,backend-seen=%s' % (case['ini_mode'], impl.get('backend_seen')))
+    if case.get('api'):
+        st.count('api.run_tasks:pos_arg=%s,pos_given=%s,task_opts=%d,section-too=%s'
+                 % (bool(case.get('pos_arg')), bool(case.get('api_pos_given')), min(3, len(case['task_opts'])), bool(case['ini'])))
     if case['path'] == 'runtask':
         st.count('runtask:pos_arg=%s,section=%s,args=%s' % (bool(case.get('pos_arg')), bool(case['ini']), bool(case['argv'])))
     if case['path'] == 'realcmd':
@@ -720,13 +864,19 @@ def process_batch(batch):
             seen.add(label)
             small = case
             extra = ''
-            if shrunk < 2:
+            known = any(k in SIGNATURES and SIGNATURES[k]({'case': case, 'impl': impl, 'failed': label})
+                        for kind_, k, _ in common.load_findings('C16') if kind_ == 'open')
+            if shrunk < 2 and not known:        # a listed finding is reported as found, not shrunk again on every run
                 shrunk += 1
                 small = shrink(case, label)
                 small, ok = standalone_witness(case, small, label)
                 if not ok:
                     extra = ' [seen only after earlier cases in the same process: state leaks between parses; ' \
                             'not reproduced standalone]'
+            if known or small is case or len(st.violations) >= 50:
+                # as found: no second evaluation (listed findings are hit thousands of times in the thorough tier)
+                st.violation(witness_of(case, impl, model, spec, label, note + extra), label, note + extra)
+                continue
             c2, i2, m2, s2 = eval_cases([small])[0]
             v2 = [v for v in judge(c2, i2, m2, s2)[0] if v[0] == label]
             st.violation(witness_of(c2, i2, m2, s2, label, (v2[0][1] if v2 else note) + extra), label,
@@ -773,6 +923,9 @@ def corpus_cases():
     out = []
     for name, c in common.load_corpus('C16'):
         c = dict(c)
+        if c.get('path') == 'realrun' and 'spec' not in c:
+            c['spec'] = optlib.run_spec()           # the real table is introspected, not stored in the seed
+            c['n_base'] = len(c['spec'])
         c.setdefault('n_base', 0)
         for k in ('env', 'ini', 'glob', 'dodo', 'pos'):
             c.setdefault(k, [])
@@ -790,8 +943,12 @@ def with_base(case, base):
     """corpus cases of the main path are written without the base options"""
     if case['path'] in ('main', 'premain') and case['n_base'] == 0:
         case = dict(case)
-        case['spec'] = base + case['spec']
+        case['spec'] = [dict(o) for o in base] + case['spec']
         case['n_base'] = len(base)
+        if case.get('plugins'):
+            for o in case['spec'][:case['n_base']]:
+                if o['name'] == 'backend' and 'vmem' not in o['choices']:
+                    o['choices'] = list(o['choices']) + ['vmem']
     return case
 
 
@@ -811,6 +968,9 @@ def run(ctx):
         while path is None or (path == 'main' and base is None):
             path = rng.choice(PATHS)
         cases.append(gen_case(rng, base or [], path))
+    rr = realrun_cases(random.Random(master.getrandbits(64)), (90 if ctx.tier == 'quick' else 1200) * ctx.boost)
+    ctx.count('real-run-command:cases', len(rr))
+    cases += rr
     real = realcmd_cases(random.Random(master.getrandbits(64)), 4 if ctx.tier == 'quick' else 60)
     ctx.count('real-command-tables:cases', len(real))
     cases += real
@@ -845,9 +1005,15 @@ def replay(ctx, data):
     print('path    :', c['path'])
     print('options :', json.dumps(c['spec'][c['n_base']:]))
     print('env     :', c['env'], ' config section:', c['ini'], ' GLOBAL:', c['glob'], ' DOIT_CONFIG:', c['dodo'])
+    if c.get('api'):
+        print('API     : doit.api.run_tasks(ModuleTaskLoader(ns), {"t": %s%s}) twice with the same dict; the argv below is only '
+              'the model\'s view' % (json.dumps(c['task_opts']), (' + posv=%s' % c['pos']) if c.get('api_pos_given') else ''))
     if c['path'] == 'runtask':
         print('task t  : pos_arg=%s, per-task config section present: %s (%s); command line: doit t %s'
               % (bool(c.get('pos_arg')), bool(c['ini'] or c.get('cfg_not_none')), c.get('ini_mode'), ' '.join(c['argv'])))
+    if c.get('plugins'):
+        print('plugins : [COMMAND] vcmd = optlib:PLUGIN_VCMD, [BACKEND] vmem = optlib:PLUGIN_BACKEND in the same config source '
+              '(%s); backend instantiated: %s' % (c['ini_mode'], impl.get('backend_seen')))
     if c.get('ini_mode') == 'mixed':
         print('config  : extra_config (same dict object for every DoitMain of the case) = the sections above; files of '
               'this invocation: %s' % json.dumps(c.get('files')))
@@ -939,6 +1105,100 @@ def real_tables():
     except Exception as ex:  # noqa
         out.append(('DodoTaskLoader', None, type(ex).__name__))
     return out
+
+
+def realrun_cases(rng, n):
+    """the real `run` command: continue / single / always / verbosity / num_process / par_type from DOIT_CONFIG, the
+    [GLOBAL] / [run] sections (API dict, doit.cfg, pyproject.toml) and the command line; judged by what the run does"""
+    spec = optlib.run_spec()
+    if spec is None:
+        return []
+    by = dict((o['name'], o) for o in spec)
+    out = []
+
+    def text_of(v):
+        if isinstance(v, bool):
+            return rng.choice(['yes', 'on', '1', 'True']) if v else rng.choice(['no', 'off', '0', 'false'])
+        return str(v)
+
+    def layer(p, typed_ok):
+        res = []
+        for name, pool in optlib.RUN_POOL.items():
+            if rng.random() < p:
+                v = rng.choice(pool)
+                res.append([name, {'val': v}] if (typed_ok and not isinstance(v, str) and rng.random() < 0.5)
+                           else [name, {'raw': text_of(v)}])
+        rng.shuffle(res)
+        return res
+
+    for _ in range(n):
+        mode = rng.choice(['api', 'file', 'toml'])
+        c = {'path': 'realrun', 'spec': spec, 'env': [], 'glob': layer(0.2, mode != 'file'), 'ini': layer(0.35, mode != 'file'),
+             'dodo': [[k, rng.choice(pool)] for k, pool in optlib.RUN_POOL.items() if rng.random() < 0.35],
+             'ini_mode': mode, 'sep': False, 'pos': ['t', 'u', 'a_fail', 'z'], 'malformed': None, 'n_base': len(spec)}
+        asgs = []
+        for name, pool in optlib.RUN_POOL.items():
+            if rng.random() < 0.35:
+                o = by[name]
+                v = rng.choice(pool)
+                if o['type'] == 'bool':
+                    forms = ([['flags', o['short']]] if o['short'] else []) + [['lFlag', o['long']]]
+                    if o['inverse'] and not v:
+                        forms = [['lFlag', o['inverse']]]
+                    asgs.append(rng.choice(forms))
+                else:
+                    forms = ['lEq', 'lDet'] + (['sAtt', 'sDet'] if o['short'] else [])
+                    f = rng.choice(forms)
+                    asgs.append([f, '', o['short'], str(v)] if f in ('sAtt', 'sDet') else [f, o['long'], str(v)])
+        rng.shuffle(asgs)
+        c['asgs'] = asgs
+        if rng.random() < 0.06:
+            c['malformed'] = 'bad-value'
+            if rng.random() < 0.5:
+                c['argv'] = ['-v', 'abc'] + optlib.render(asgs, False, c['pos'])
+            else:
+                c['ini'] = [e for e in c['ini'] if e[0] != 'num_process'] + [['num_process', {'raw': 'many'}]]
+                c['argv'] = optlib.render(asgs, False, c['pos'])
+        else:
+            c['argv'] = optlib.render(asgs, False, c['pos'])
+        out.append(c)
+    return out
+
+
+def judge_realrun(case, impl, model, spec):
+    """(K) behaviour for the model's resolved values, (P) behaviour for the specification's values, against what the
+    run did (continue is only visible in a serial run, verbosity not in a process run: compared when observed)"""
+    viol, div = [], []
+    r1 = impl.get('res') or {}
+
+    def cmp_(want_vals, label):
+        want = optlib.run_behaviour(want_vals)
+        got = r1['ok']['behaviour']
+        bad = [(k, got[k], want[k]) for k in ('mode', 'single', 'always', 'continue', 'verbosity')
+               if got[k] is not None and got[k] != want[k]]
+        if bad:
+            k, g, w_ = bad[0]
+            return '`doit run %s`: the run shows %s=%r, %s gives %r (%s)' % (' '.join(case['argv']), k, g, label, w_,
+                                                                            'tasks run: %s' % impl.get('ran'))
+        return None
+
+    mres = model['res']
+    if 'err' in mres or 'err' in r1:
+        if ('err' in mres) != ('err' in r1) or ('err' in r1 and r1['err'] == 'crash'):
+            div.append('M4/realrun: impl %s model %s' % (canon(r1)[:200], canon(res_key(mres))[:200]))
+        if case.get('malformed') and ('err' not in r1 or r1['err'] == 'crash' or impl.get('exit') != 3):
+            viol.append(('reject', 'ill-typed value for a `run` option was not rejected with exit code 3: %s' % canon(impl)[:200]))
+        elif 'err' in r1 and not case.get('malformed') and spec is not None and 'vals' in spec['expect']:
+            viol.append(('roundtrip', 'well-formed `doit run %s` rejected: %s' % (' '.join(case['argv']), canon(r1)[:200])))
+        return viol, div
+    note = cmp_(mres['ok']['vals'], 'the model')
+    if note:
+        div.append('M4/realrun: ' + note)
+    if spec is not None and spec['hyp_ok'] and model.get('wf') and 'vals' in spec['expect']:
+        note = cmp_(spec['expect']['vals'], 'the property (cmdline > DOIT_CONFIG > [run] > [GLOBAL] > default)')
+        if note:
+            viol.append(('precedence', note))
+    return viol, div
 
 
 def _real_parser(label):
